@@ -387,7 +387,7 @@ pub fn run(args: &Args) {
         rep.finish();
         return;
     }
-    for k in 0..args.budget(6_400, 100_000) {
+    for k in 0..args.budget(6_400, 32_000) {
         one(&mut rep, args.case_seed(k), args.thorough);
     }
     rep.finish();
